@@ -28,7 +28,10 @@ def run(cmd, timeout=600, cwd=None, env=None, stdin=None):
 
 def build():
     """bin/build (flock'd, incremental) -> status dict name -> rc"""
-    rc, out, err = run([V + '/bin/build'], timeout=3600)
+    if os.environ.get('VERIF_SKIP_BUILD') == '1' and os.path.exists(B + '/build.status'):   # development only
+        rc, out, err = 0, open(B + '/build.status', 'rb').read(), b''
+    else:
+        rc, out, err = run([V + '/bin/build'], timeout=3600)
     st = {}
     for l in out.decode().splitlines():
         if '=' in l:
